@@ -229,16 +229,30 @@ func validateRun(args []string) int {
 	// limits
 	_, _ = validation.ValidateLimit(0)
 	deflt, _ := validation.ValidateLimit(0)
-	for _, n := range []int{-2000000000, -101, -100, -2, -1, 0, 1, 2, 5, 10, 50, 99, 100, 101, 102, 1000, 2000000000} {
+	clamp := func(n int) int { // TLC integers are 32-bit; the clamp is monotone and keeps 0..100 exact
+		if n > 2000000000 {
+			return 2000000000
+		}
+		if n < -2000000000 {
+			return -2000000000
+		}
+		return n
+	}
+	lim := func(n int) {
 		tr++
 		v, err := validation.ValidateLimit(n)
-		w.emit(&valEv{Op: "limit", N: n, OK: err == nil, Val: v, Deflt: deflt, Tr: tr, In: []int{}, Out: []int{}})
+		w.emit(&valEv{Op: "limit", N: clamp(n), OK: err == nil, Val: clamp(v), Deflt: deflt, Tr: tr, In: []int{}, Out: []int{}})
+	}
+	for _, n := range []int{-2000000000, -101, -100, -2, -1, 0, 1, 2, 5, 10, 50, 99, 100, 101, 102, 1000, 2000000000,
+		-1 << 63, 1<<63 - 1, 1 << 31, 1<<31 + 5, -1 << 31, 1 << 32, 1<<32 + 42, -(1 << 32) + 50, 3 << 32, 1<<32 + 100, 1<<32 + 101, 1<<16 + 7, 1 << 8, 1<<8 + 3} {
+		lim(n)
 	}
 	for i := 0; i < 200; i++ {
-		n := r.Intn(260) - 80
-		tr++
-		v, err := validation.ValidateLimit(n)
-		w.emit(&valEv{Op: "limit", N: n, OK: err == nil, Val: v, Deflt: deflt, Tr: tr, In: []int{}, Out: []int{}})
+		lim(r.Intn(260) - 80)
+	}
+	for i := 0; i < 200; i++ { // wide values whose low bits look like a small limit
+		hi := (r.Intn(1<<20) - 1<<19) << uint(8*(1+r.Intn(6)))
+		lim(hi + r.Intn(140) - 20)
 	}
 	w.close()
 	fmt.Printf("{\"class_sequences\": %d, \"events\": %d}\n", nseq, w.n)
